@@ -26,7 +26,7 @@
 (* operations (+ comparison, *, /) are exact on rationals.                 *)
 (*                                                                         *)
 (* A recorded *result* is [k, v]: k = "num" (v = <<n, d>>, the float       *)
-(* result converted exactly and reduced to n, d < 2^15 by the driver),     *)
+(* result converted exactly and reduced to n, d <= 8191 by the driver),    *)
 (* "none" (None returned), "inf" (an infinite float), "error" (the call    *)
 (* raised).  All integers stay far below 2^31 (see Close).                 *)
 (*                                                                         *)
@@ -156,7 +156,8 @@ PBounds(c) ==
                 RPos(Val(c.arrays[y[1]].real[y[2]], n))}} : n \in Criteria}
 
 \* comparison of a recorded value r with an exact value e: 1 part in 2^20
-\* (all of r[1], r[2] < 2^15 and e[1], e[2] < 2^15: products < 2^30)
+\* (r[1], r[2] <= 8191 by the driver; e[1], e[2] < 2^17 in every universe:
+\* all products < 2^31)
 Tol == 1048576
 Close(r, e) == Abs(r[1] * e[2] - e[1] * r[2]) <= (e[1] * r[2]) \div Tol
 LeTol(r, b) == r[1] * b[2] - b[1] * r[2] <= (b[1] * r[2]) \div Tol
@@ -223,13 +224,15 @@ FacOf(fac, n) == CASE n = "cfl" -> fac.cfl [] n = "force" -> fac.force
 \* Defect hmin-starts-at-1: the start value was 1.0.  Defect empty-array:
 \* empty arrays were not skipped (update_min_max gives 0 for an empty
 \* carray).
-M_Hmin(c, df) ==
+M_HminOver(c, arrs, df) ==
     LET start == IF "C19-hmin-starts-at-1" \in df THEN {One} ELSE {}
-        arrs == IF "C19-empty-array-hmin" \in df
-                THEN Arr(c) ELSE {a \in Arr(c) : NAll(c, a) > 0}
         mins == {IF NAll(c, a) = 0 THEN Zero
                  ELSE RMinOf(ArrVals(c, a, "h", "all")) : a \in arrs}
     IN IF start \cup mins = {} THEN InfV ELSE Num(RMinOf(start \cup mins))
+NonEmpty(c) == {a \in Arr(c) : NAll(c, a) > 0}
+M_Hmin(c, df) ==
+    M_HminOver(c, IF "C19-empty-array-hmin" \in df THEN Arr(c)
+                  ELSE NonEmpty(c), df)
 
 \* the three candidate steps start at inf; min; <= 0 or inf -> None
 M_Combine(c, fac, hmin) ==
@@ -297,4 +300,124 @@ Verdict(c, res, sres, K) ==
     IN [id |-> c.id, failed |-> f, explained |-> ex,
         known |-> IF ex THEN Needed(c, K) ELSE {},
         wellformed |-> WellFormed(c)]
+-----------------------------------------------------------------------------
+(* HISTORIES.  One Integrator / NNPS / Solver object is asked for the step *)
+(* several times while the arrays change in between as a simulation        *)
+(* changes them.  A history is                                             *)
+(*   [id, cfl, dt, fixed_h, ndamp, init : arrays,                          *)
+(*    asks : Seq([ops, arrays, count, res, kept, step])]                   *)
+(* ops are the changes made during the solver step that precedes the ask   *)
+(* (none before the first ask), `arrays` the arrays at the time of the     *)
+(* ask, count the solver's iteration count; res = what compute_time_step   *)
+(* returned, kept = what Solver._compute_timestep returned (the undamped   *)
+(* step), step = what Solver._get_timestep returned (the damped step).     *)
+(* An op is [op, a, i, h, parts]:                                          *)
+(*   "add"        append the real particles `parts` to array a             *)
+(*   "removeall"  array a loses all its particles                          *)
+(*   "removelast" array a loses its last real particle                     *)
+(*   "seth"       real particle i of array a gets smoothing length h       *)
+(* The statement is MEMORYLESS: what is documented for an ask depends on   *)
+(* the current arrays only (Allowed / PBounds of the current case).  The   *)
+(* only state the statement speaks of is "the fixed step is kept": the     *)
+(* step in force (the solver's undamped nominal step: the initial dt, or   *)
+(* the last step proposed) is what _compute_timestep must return when no   *)
+(* criterion applies - in particular while the initial damping is active   *)
+(* - and the step taken is that value times the documented damping factor  *)
+(* 0.5 (sin(pi (-0.5 + (count + 1)/n_damp)) + 1), count < n_damp.          *)
+
+\* exact for n_damp <= 3 (sin of 0, +-pi/6, pi/2)
+DampFactor(n, k) ==
+    IF n > 0 /\ k < n
+    THEN CASE n = 1 -> One
+           [] n = 2 -> (IF k = 0 THEN <<1, 2>> ELSE One)
+           [] n = 3 -> (CASE k = 0 -> <<1, 4>> [] k = 1 -> <<3, 4>>
+                          [] OTHER -> One)
+    ELSE One
+
+ApplyOp(arrs, o) ==
+    CASE o.op = "add" -> [arrs EXCEPT ![o.a].real = @ \o o.parts]
+      [] o.op = "removeall" ->
+           [arrs EXCEPT ![o.a].real = <<>>, ![o.a].ghost = <<>>]
+      [] o.op = "removelast" ->
+           [arrs EXCEPT ![o.a].real = SubSeq(@, 1, Len(@) - 1)]
+      [] o.op = "seth" -> [arrs EXCEPT ![o.a].real[o.i].h = o.h]
+RECURSIVE ApplyOps(_, _, _)
+ApplyOps(arrs, ops, k) ==
+    IF k > Len(ops) THEN arrs ELSE ApplyOps(ApplyOp(arrs, ops[k]), ops, k + 1)
+
+CaseAt(H, k) == [id |-> H.id, cfl |-> H.cfl, dt |-> H.dt,
+                 fixed_h |-> H.fixed_h, arrays |-> H.asks[k].arrays]
+\* the step in force before ask k
+Nominal(H, k) ==
+    IF k > 1 /\ H.asks[k - 1].kept.k = "num" THEN H.asks[k - 1].kept.v
+    ELSE N(H.dt)
+
+HNames == {"Ops", "Value", "Kept", "Bound", "Damped"}
+HFailedAt(H, k) ==
+    LET c == CaseAt(H, k)
+        q == H.asks[k]
+        al == Allowed(c)
+        pb == PBounds(c)
+        prev == IF k = 1 THEN H.init ELSE H.asks[k - 1].arrays
+        nom == Num(Nominal(H, k))
+    IN {n \in HNames :
+          ~ CASE n = "Ops" -> /\ q.arrays = ApplyOps(prev, q.ops, 1)
+                              /\ q.count = k - 1
+              [] n = "Value" -> P_Value(c, q.res, al)
+              [] n = "Kept" ->
+                   \E e \in al : SameV(q.kept, IF e.k = "none" THEN nom ELSE e)
+              [] n = "Bound" -> P_Bound(c, q.kept, pb)
+              [] n = "Damped" ->
+                   q.kept.k = "num" =>
+                       /\ q.step.k = "num"
+                       /\ Close(q.step.v,
+                                RMul(q.kept.v, DampFactor(H.ndamp, q.count)))}
+HBad(H) == {k \in 1 .. Len(H.asks) : HFailedAt(H, k) # {}}
+HWellFormed(H) == \A k \in 1 .. Len(H.asks) : WellFormed(CaseAt(H, k))
+
+\* (M) the mechanism over a history.  The code keeps no result between two
+\* calls (_has_dt_adapt is cached, but the set of properties of an array
+\* does not change; h_minimum is recomputed when fixed_h is off); the solver
+\* keeps self.dt (the last damped step) and self._damping_factor.  hd is a
+\* set of seeded defects used to measure that the history universe is
+\* sensitive to them:
+\*   "H-cache-nonempty"  the set of non-empty arrays is remembered from the
+\*                       first call (hmin only looks at those)
+\*   "H-double-damp"     the fall-back keeps self.dt (already damped)
+\*                       instead of self.dt / self._damping_factor
+HDefectIds == {"H-cache-nonempty", "H-double-damp"}
+HM_Res(H, k, hd) ==
+    LET c == CaseAt(H, k)
+    IN IF "H-cache-nonempty" \in hd
+       THEN LET ad == M_ExplicitAdapt(c, {})
+            IN IF ad.k # "none" THEN ad
+               ELSE M_Combine(c, M_Factors(c),
+                              M_HminOver(c, NonEmpty(CaseAt(H, 1)), {}))
+       ELSE Mech(c)
+HM_Step(H, k, hd, sdt, sfac) ==
+    LET res == HM_Res(H, k, hd)
+        und == IF "H-double-damp" \in hd THEN sdt ELSE RDiv(sdt, sfac)
+        kept == IF res.k = "none" THEN Num(und) ELSE res
+        fac == DampFactor(H.ndamp, k - 1)
+        step == IF kept.k = "num" THEN Num(RMul(kept.v, fac)) ELSE kept
+    IN [res |-> res, kept |-> kept, step |-> step,
+        sdt |-> IF step.k = "num" THEN step.v ELSE sdt, sfac |-> fac]
+RECURSIVE HM(_, _, _)
+HM(H, k, hd) ==
+    LET p == IF k = 1 THEN [sdt |-> N(H.dt), sfac |-> One]
+             ELSE HM(H, k - 1, hd)
+    IN HM_Step(H, k, hd, p.sdt, p.sfac)
+HMechSame(H) ==
+    \A k \in 1 .. Len(H.asks) :
+        LET m == HM(H, k, {})
+        IN /\ SameV(H.asks[k].res, m.res) /\ SameV(H.asks[k].kept, m.kept)
+           /\ SameV(H.asks[k].step, m.step)
+
+HVerdict(H) ==
+    LET bad == HBad(H)
+    IN [id |-> H.id,
+        failed |-> UNION {HFailedAt(H, k) : k \in bad},
+        step |-> IF bad = {} THEN 0 ELSE CHOOSE k \in bad : \A j \in bad : k <= j,
+        explained |-> FALSE, known |-> {},
+        wellformed |-> HWellFormed(H)]
 =============================================================================
